@@ -10,14 +10,17 @@ def _c20_case(c):
     if p[0] == "U":
         return {"op": "U", "kind": p[1], "plain": "true" if p[2] == "1" else "false",
                 "registry": unhex(p[3]), "repository": unhex(p[4]), "reference": unhex(p[5])}
+    if p[0] == "O":
+        return {"op": "O", "kind": p[1], "plain": "true" if p[2] == "1" else "false",
+                "registry": unhex(p[3]), "repository": unhex(p[4]), "input": unhex(p[5])}
     return {"raw": c}
 
 
 
 CONFIG = {
     "properties_file": "Properties/C20.v",
-    "proof_files": ["Base/Prelude.v", "Base/Regex.v", "Proofs/Reference.v"],
-    "model_files": ["Generated/GC20.v", "Model/Reference.v"],
+    "proof_files": ["Base/Prelude.v", "Base/Regex.v", "Proofs/Reference.v", "Proofs/RefOps.v"],
+    "model_files": ["Generated/GC20.v", "Model/Reference.v", "Model/RefOps.v"],
     "extract": "XC20.v",
     "ml_main": "c20_main.ml",
     "harness": "c20",
